@@ -1393,7 +1393,7 @@ func (e *Engine) mgetValT(s *State, m MapV, k Term, t types.Type, prefix string)
 		return sv
 	default:
 		v := e.mread(s, m, cs[0].name, cs[0].sort, k)
-		if cs[0].sort == "Str" && prefix != "v" {
+		if cs[0].sort == "Str" {
 			return StrV{T: v}
 		}
 		return v
